@@ -479,10 +479,18 @@ func (vfs *MemFS) MkdirAll(path string, perm fs.FileMode) error {
 
 	avfs.VerifBeforeLock(&parent.mu, true)
 	parent.mu.Lock()
-	defer parent.mu.Unlock()
 
 	if !parent.checkPermission(avfs.OpenWrite|avfs.OpenLookup, vfs.User()) {
+		parent.mu.Unlock()
+
 		return &fs.PathError{Op: op, Path: path, Err: vfs.err.PermDenied}
+	}
+
+	if parent.children[pi.Part()] != nil {
+		// The entry was created since the path was resolved : resolve it again.
+		parent.mu.Unlock()
+
+		return vfs.MkdirAll(path, perm)
 	}
 
 	dn := parent
@@ -499,6 +507,8 @@ func (vfs *MemFS) MkdirAll(path string, perm fs.FileMode) error {
 			break
 		}
 	}
+
+	parent.mu.Unlock()
 
 	return nil
 }
